@@ -66,6 +66,16 @@ def run(ctx):
                     h["env"] = env
                 hists.append(h)
                 meta.append((t2, "second:" + form, base if form == "export_all" else "other/dir"))
+        # a dependency's location is occupied by a directory: `Ok` may only be returned when every reachable type has its file
+        for t in ROOTS:
+            reach_t = uni.reach(types, t)
+            for victim in reach_t[1:4]:
+                vloc = posixpath.normpath(posixpath.join(base, types[victim]["output_path"]))
+                h = {"op": "uhist", "root": root, "steps": unrelated + [{"k": "mkdir", "p": "$ROOT/" + vloc}, {"k": "snap"}, {"k": "export_all", "t": t}, {"k": "snap"}]}
+                if env is not None:
+                    h["env"] = env
+                hists.append(h)
+                meta.append((t, "blocked:" + str(victim), base))
         real, model, dis = uni.run_both(ctx, binary, types, hists, f"single exports env={env}")
         total += len(hists)
         for h, r, (t, form, b) in zip(hists, real, meta):
@@ -84,6 +94,12 @@ def run(ctx):
                     d = posixpath.dirname(d)
             case = {"env": env, "type": types[t]["name"], "entry": form, "steps": h["steps"]}
             problems = []
+            if form.startswith("blocked:"):
+                missing = sorted(l for l in locs if "file" not in after.get(l, {}))
+                if r["steps"][-2] == "ok" and missing:
+                    ctx.violation("export_all returned Ok although files of reachable types were not written: " + ", ".join(missing[:4]),
+                                  dict(case, blocked=types[int(form.split(":")[1])]["name"]), {"reach": [types[x]["name"] for x in targets]})
+                continue
             if r["steps"][-2] != "ok":
                 problems.append(f"export returned {r['steps'][-2]}")
             if form.startswith("second:"):
